@@ -248,7 +248,18 @@ U11 = universe("U11", 4, [
 ], base=["(w 1 (f 1 2))", "(w 2 (f 1 2))", "(wb 1 2 (f 1 2))", "(wb 1 1 (f 1 2))", "(g (w 1 (f 1 2)))"],
    note="direct slot fields after a (symmetric) child")
 
-ALL = {"U11": U11, "U10": U10, "U9": U9, "U8": U8, "U7": U7, "U1": U1, "U2": U2, "U3": U3, "U4": U4, "U5": U5, "U6": U6}
+# U12 "shadowing double binders": a node that binds the SAME name twice (Bind<Bind<..>>, the inner binder shadows the
+# outer one) is congruent to a node with two different binder names once a slot of the child is redundant (D19: the
+# explanation machinery numbered bound slots by name).
+U12 = universe("U12", 4, [
+    (F12, V2),
+    (F12, F21),
+    ("(sum c 2 2 (f 3 2))", "c"),
+    ("(sum (v 1) 2 2 (f 1 2))", "(sum (v 1) 3 2 (v 2))"),
+], base=["(sum c 2 2 (f 3 2))", "(sum c 2 3 (v 3))", "(sum c 2 3 (f 2 3))", "(g (sum c 2 2 (f 3 2)))"],
+   note="a doubly bound name (inner shadows outer) next to distinct binder names")
+
+ALL = {"U12": U12, "U11": U11, "U10": U10, "U9": U9, "U8": U8, "U7": U7, "U1": U1, "U2": U2, "U3": U3, "U4": U4, "U5": U5, "U6": U6}
 
 if __name__ == "__main__":
     out = os.path.dirname(os.path.abspath(__file__))
